@@ -28,6 +28,9 @@ def _var_int(data: bytearray, offset: int = 0) -> Tuple[int, int]:
             raise SMFError("Not enough data")
         offset += 1
         val = (val << 7) + (x & 0x7F)
+        if val > 0x0FFFFFFF:
+            # the format limits variable-length quantities to four bytes
+            raise SMFError("Variable-length quantity too large")
         if not (x & 0x80):
             return val, offset
 
